@@ -25,7 +25,7 @@ Loose == /\ w = "jsonl" /\ Ev.name = "other" /\ ~inrun
          /\ Call("other") /\ UNCHANGED <<run, inrun, rundocs>>
 
 TraceNext == /\ l <= Len(Traces[tid].ev)
-             /\ \/ Ev.name = "start" /\ Start
+             /\ \/ Ev.name = "start" /\ (Start \/ StartOver)
                 \/ Ev.name = "other" /\ Other
                 \/ Ev.name = "stop" /\ Stop
                 \/ Loose
